@@ -224,6 +224,22 @@ def _r2_r3(ctx, repo):
             return None
         its_ = [_iter_source(x) for x in (e if isinstance(e, list) else [e])]
         ok = bool(its_) and all(isinstance(it_, ast.Name) and it_.id == vararg for it_ in its_)
+        # ... and on EVERY path a Python list among them has been turned into an array: a raw list is a program to the interpreter
+        from ..common import value_alternatives as _valts
+        from ..model import enclosing_stmt as _est2
+        e0 = argl.elts[0].value if isinstance(argl, ast.List) and len(argl.elts) == 1 and isinstance(argl.elts[0], ast.Starred) else argl
+        alts_ = _valts(e0, f.node, _est2(c)) if e0 is not None else []
+
+        def _converts(x):
+            while isinstance(x, ast.Call) and callee_name(x) in ("list", "tuple") and len(x.args) == 1:
+                x = x.args[0]
+            if isinstance(x, ast.List) and len(x.elts) == 1 and isinstance(x.elts[0], ast.Starred):
+                x = x.elts[0].value
+            return isinstance(x, (ast.ListComp, ast.GeneratorExp)) and any(isinstance(n, ast.Call) and callee_name(n) in ("asarray", "kg_asarray", "array") for n in ast.walk(x.elt))
+        conv = bool(alts_) and all(_converts(v_) for v_, _c in alts_)
+        ctx.ob("C09-R2", f.fq, "Python lists among the arguments are converted to arrays on every path to the dispatch", conv, node=c, construct=f"list arguments converted before dispatching {fobj}",
+               msg=f"on some path {fobj} is dispatched with the caller's arguments as they came ({[src(v_)[:30] for v_, _c in alts_ if not _converts(v_)]}): a Python list handed to the interpreter is "
+                   "evaluated as a PROGRAM, the callee receives its last element (klong['f']([10,20,30]) passes 30)")
         ctx.ob("C09-R2", f.fq, "every caller argument is forwarded, in order", ok, node=c, construct="arguments forwarded in order")
     # ---- R3
     ctx.instance("C09-R3", f.fq)
@@ -581,6 +597,8 @@ MUTATION_SCOPE = ['types:KGLambda.__init__',
                   'interpreter:KlongInterpreter.__delitem__']
 
 SEEDS = [
+    Seed("fallback-dispatch-without-list-conversion", "fault", "types", "        fn_args = [np.asarray(x) if isinstance(x, list) else x for x in args]\n        return self.klong.call(KGCall(self.fn.a, [*fn_args], self.fn.arity))",
+         "        fn_args = args\n        return self.klong.call(KGCall(self.fn.a, [*fn_args], self.fn.arity))", rule="C09-R2"),
     Seed("setitem-copies-dicts", "fault", "interpreter", "        k = k if isinstance(k, KGSym) else KGSym(k)\n        self._context[k] = v\n",
          "        k = k if isinstance(k, KGSym) else KGSym(k)\n        if type(v) is dict:\n            v = dict(v)\n        self._context[k] = v\n", rule="C09-R4"),
     Seed("param-names-from-code-object", "fault", "types", "        params = args or safe_inspect(fn)", "        params = args or (fn.__code__.co_varnames[:fn.__code__.co_argcount] if hasattr(fn, '__code__') else safe_inspect(fn))", rule="C09-R1"),
